@@ -452,3 +452,6 @@ def obligations(tier):
         obs.append(Ob(name, (lambda k: lambda rep: o_rewards(rep, k, *((2, 2) if k == "sum" else (1, 2))))(kind), f"normalizeMetrics + {kind} reward formula", 900))
         REPLAYS[name] = replay_reward
     return obs
+
+
+BOUNDS["engine path"] = "engine-* obligations: the decision matrix stored by the real CentralizedTaskingEngine.generateTasking (real engine constructor) for all reward/visibility matrices of shapes 1x1, 1x2, 2x1, 2x2 (thorough 3x2, 2x3), all four policies"
